@@ -1,10 +1,12 @@
 package props
 
 import (
+	"strings"
 	"fmt"
 
 	"verif/harness/dec"
 	"verif/harness/gen"
+	"verif/harness/rtx"
 	"verif/harness/rep"
 )
 
@@ -99,6 +101,54 @@ func RunC14(c *Ctx) {
 		}
 	}
 	runC14Stacks(c)
+	// records whose size is swept across what still fits a block: as the first record of a
+	// block (a symref after a short ref that fills the rest of block 0 only partly), as a
+	// later record, in the first block (which holds the file header) and in a later one
+	cidx := 0
+	for _, bs := range []uint32{96, 128, 200, 256, 512} {
+		for _, sha := range []bool{false, true} {
+			for _, unaligned := range []bool{false, true} {
+				for _, shape := range []int{0, 1, 2} {
+					cidx++
+					if !c.Mine(cidx) {
+						continue
+					}
+					hs := 20
+					if sha {
+						hs = 32
+					}
+					for L := int(bs) - 70; L <= int(bs)+4; L++ {
+						if L < 1 {
+							continue
+						}
+						t := &gen.Table{Cfg: gen.Cfg{BlockSize: bs, SHA256: sha, Unaligned: unaligned, SetLimits: true, Min: 1, Max: 1}}
+						long := gen.Ref{Name: "refs/m", UI: 1, Kind: gen.KSym, Target: strings.Repeat("t", L)}
+						switch shape {
+						case 0: // long record first in a LATER block
+							t.Refs = []gen.Ref{{Name: "refs/a", UI: 1, Kind: gen.KVal, Value: gen.IDHash(1, 0, hs)}, long}
+						case 1: // long record first in the FIRST block, more records after it
+							t.Refs = []gen.Ref{long, {Name: "refs/z", UI: 1, Kind: gen.KVal, Value: gen.IDHash(1, 0, hs)}}
+						default: // three blocks, the long one in the middle, plus a log
+							t.Refs = []gen.Ref{{Name: "refs/a", UI: 1, Kind: gen.KVal, Value: gen.IDHash(1, 0, hs)}, long, {Name: "refs/z", UI: 1, Kind: gen.KVal, Value: gen.IDHash(1, 1, hs)}}
+							t.Logs = []gen.Log{{Name: "refs/a", UI: 1, New: gen.IDHash(1, 0, hs), User: "u", Email: "e", Time: 5, Msg: "m\n"}}
+						}
+						r.Evaluations++
+						data, err := rtx.WriteTable(t)
+						if err != nil {
+							if rtx.IsPanic(err) {
+								r.Violate([]string{"C14"}, "writer-"+PanicSig(err), "writer panicked: "+PanicDetail(err), mkCase(c, "capacity-sweep", cidx, t, fmt.Sprintf("L=%d", L)))
+							}
+							continue // too large for the block: rejected, fine
+						}
+						wr, wl := t.Expected()
+						cfg := t.Cfg
+						decodeCheck(c, "writer", mkCase(c, "capacity-sweep", cidx, t, fmt.Sprintf("record length swept: L=%d shape=%d", L, shape)), data, &cfg, wr, wl, true)
+						r.Count("capacity_sweep_tables", 1)
+					}
+				}
+			}
+		}
+	}
 }
 
 func decodeQuiet(data []byte) (*dec.Info, []dec.Finding) {
